@@ -99,9 +99,10 @@ def r13_7(ctx):
             for tb, lab, f in cond_facts(F, b, bi):
                 if f[0] == 'rel' and (('A:2' in leafs(f[2])) != ('A:2' in leafs(f[3]))):
                     facts.append((bi, tb, f))
-        ctx.need(facts, f"comparison of the timestamp with a deadline in Timer::{nm}")
+        direct = [(bi, f) for bi, f in returned_comparisons(F, b) if ('A:2' in leafs(f[2])) != ('A:2' in leafs(f[3]))]
+        ctx.need(facts or direct, f"comparison of the timestamp with a deadline in Timer::{nm}")
         # the edge(s) leading to `true`
-        trues = []
+        trues = [bi for bi, f in direct]
         for bi, bl in enumerate(b.blocks):
             if bl['cl']:
                 continue
@@ -120,6 +121,10 @@ def r13_7(ctx):
             if any(t in seen for t in trues):
                 if (ts_left and f[1] == 'Gt') or (not ts_left and f[1] == 'Lt'):
                     strict.append(bi)
+        for (bi, f) in direct:
+            ts_left = 'A:2' in leafs(f[2])
+            if (ts_left and f[1] == 'Gt') or (not ts_left and f[1] == 'Lt'):
+                strict.append(bi)
         if strict:
             ctx.bad(f"Timer::{nm}|strict", f"Timer::{nm} requires the clock to be strictly past the deadline: a poll at exactly the instant reported by "
                     "poll_at does nothing (the event loop spins or the action is delayed)", body=b, bb=strict[0])
@@ -594,12 +599,15 @@ def r05_4b(ctx):
         # value of `offset` where the end-of-queue test reads it, on the paths through this call: the definition of any
         # `offset` local that reaches the first switch after the call without passing another get_allocated
         seen = d.reachable(start=x[4], cut_blocks=gablocks - {x[0]}) if x[4] is not None else {}
+        # facts as seen on the paths through this call site only (the other sites' definitions of `offset` do not reach)
+        others_in = {(pb, ob) for ob in gablocks - {x[0]} for pb in d.pred[ob]}
+        dr = d.restricted(others_in)
         tests = []
         for bi in seen:
             bl = d.blocks[bi]
             if bl['cl'] or bl['t'][0] != 'switch':
                 continue
-            for tb, lab, f in cond_facts(F, d, bi):
+            for tb, lab, f in cond_facts(F, dr, bi):
                 if f[0] == 'rel' and f[1] in ('Eq', 'Ne') and f"F:{SOCK}.tx_buffer" in leafs(f[3]) and \
                         any(l.endswith('::get_allocated') for l in leafs(f[2]) if l.startswith('C:')):
                     tests.append((bi, f))
